@@ -16,6 +16,15 @@ Proof. vm_compute. reflexivity. Qed.
 Lemma lib_ok f : In f library_fields -> gf_ok f = true.
 Proof. intros H. pose proof library_fields_ok as Hall. rewrite forallb_forall in Hall. auto. Qed.
 
+Lemma qr_field_ok : gf_ok (field_of_dump gfdump_qr) = true.
+Proof. vm_compute. reflexivity. Qed.
+Lemma dm_field_ok : gf_ok (field_of_dump gfdump_datamatrix) = true.
+Proof. vm_compute. reflexivity. Qed.
+Lemma qr_field_params : gf_size (field_of_dump gfdump_qr) = 256 /\ gf_base (field_of_dump gfdump_qr) = 0.
+Proof. vm_compute. split; reflexivity. Qed.
+Lemma dm_field_params : gf_size (field_of_dump gfdump_datamatrix) = 256 /\ gf_base (field_of_dump gfdump_datamatrix) = 1.
+Proof. vm_compute. split; reflexivity. Qed.
+
 Definition in_field (f : gfield) (x : Z) : Prop := 0 <= x < gf_size f.
 
 Theorem field_laws : forall f, In f library_fields ->
